@@ -387,85 +387,91 @@ func runC19Bounds(c *Ctx) {
 	}
 	axioms := func(bc *boundsCtx, f *factSet, ins ssa.Instruction) {
 		fn := bc.fn
-		switch fn.Name() {
-		case "newTagItems":
-			// t ranges over rTags.FindAllString(...): every match contains ':' (proved by language inclusion)
-			if colonOK {
-				for _, call := range callsIn(fn, "strings.Index") {
-					if s, _ := constString(call.Call.Args[1]); s == ":" {
-						f.le("", 0, bc.key(call), 0, 0) // idx >= 0
-					}
-				}
-				for _, call := range callsIn(fn, "strings.IndexByte") {
-					if k, ok := constInt(call.Call.Args[1]); ok && k == ':' {
-						f.le("", 0, bc.key(call), 0, 0) // idx >= 0
-					}
-				}
-				// the same fact for the splitting form: a text containing ':' splits into >= 2 parts
-				for _, nm := range []string{"strings.SplitN", "strings.Split"} {
-					for _, call := range callsIn(fn, nm) {
-						if s, _ := constString(call.Call.Args[1]); s != ":" {
-							continue
+		names := []string{fn.Name()}
+		if fn.Name() == "injectTag" && len(callsIn(fn, "(*regexp.Regexp).FindAllString")) > 0 {
+			names = append(names, "newTagItems") // the tokeniser inlined into injectTag: same fact about the tokens
+		}
+		for _, name := range names {
+			switch name {
+			case "newTagItems":
+				// t ranges over rTags.FindAllString(...): every match contains ':' (proved by language inclusion)
+				if colonOK {
+					for _, call := range callsIn(fn, "strings.Index") {
+						if s, _ := constString(call.Call.Args[1]); s == ":" {
+							f.le("", 0, bc.key(call), 0, 0) // idx >= 0
 						}
-						if nm == "strings.SplitN" {
-							if n, ok := constInt(call.Call.Args[2]); !ok || (n >= 0 && n < 2) {
+					}
+					for _, call := range callsIn(fn, "strings.IndexByte") {
+						if k, ok := constInt(call.Call.Args[1]); ok && k == ':' {
+							f.le("", 0, bc.key(call), 0, 0) // idx >= 0
+						}
+					}
+					// the same fact for the splitting form: a text containing ':' splits into >= 2 parts
+					for _, nm := range []string{"strings.SplitN", "strings.Split"} {
+						for _, call := range callsIn(fn, nm) {
+							if s, _ := constString(call.Call.Args[1]); s != ":" {
 								continue
 							}
-						}
-						f.le("", 0, "len("+bc.key(call)+")", 0, -2)
-					}
-				}
-			}
-		case "ParseFile":
-			// the source text of a tag literal (ast.BasicLit.Value of Field.Tag) is quoted: len >= 2
-			for _, b := range fn.Blocks {
-				for _, i := range b.Instrs {
-					if ld, ok := i.(*ssa.UnOp); ok && ld.Op == token.MUL {
-						if fa, ok := ld.X.(*ssa.FieldAddr); ok && fieldAddrName(fa) == "Value" && isNamed(fa.X.Type(), "go/ast", "BasicLit") {
-							f.le("", 0, "len("+bc.key(ld)+")", 0, -2)
+							if nm == "strings.SplitN" {
+								if n, ok := constInt(call.Call.Args[2]); !ok || (n >= 0 && n < 2) {
+									continue
+								}
+							}
+							f.le("", 0, "len("+bc.key(call)+")", 0, -2)
 						}
 					}
 				}
-			}
-		case "injectTag", "WriteFile":
-			// area offsets come from ParseFile of the same bytes and are applied in descending
-			// order (C06-ORDER), so 1 <= Start <= End <= len(contents)+1 at every application
-			var contents ssa.Value
-			if fn.Name() == "injectTag" {
-				contents = fn.Params[0]
-			}
-			for _, b := range fn.Blocks {
-				for _, i := range b.Instrs {
-					sl, ok := i.(*ssa.Slice)
-					if !ok {
-						continue
+			case "ParseFile":
+				// the source text of a tag literal (ast.BasicLit.Value of Field.Tag) is quoted: len >= 2
+				for _, b := range fn.Blocks {
+					for _, i := range b.Instrs {
+						if ld, ok := i.(*ssa.UnOp); ok && ld.Op == token.MUL {
+							if fa, ok := ld.X.(*ssa.FieldAddr); ok && fieldAddrName(fa) == "Value" && isNamed(fa.X.Type(), "go/ast", "BasicLit") {
+								f.le("", 0, "len("+bc.key(ld)+")", 0, -2)
+							}
+						}
 					}
-					if fn.Name() == "WriteFile" {
-						contents = sl.X
-					}
-					if sl.X != contents {
-						continue
-					}
-					ln, lo := bc.lenTerm(contents)
-					var startT, endT string
-					for _, bb := range fn.Blocks {
-						for _, ii := range bb.Instrs {
-							if ld, ok := ii.(*ssa.UnOp); ok && ld.Op == token.MUL {
-								if fa, ok := ld.X.(*ssa.FieldAddr); ok && strings.Contains(fa.X.Type().String(), "textArea") {
-									switch fieldAddrName(fa) {
-									case "Start":
-										startT = bc.key(ld)
-									case "End":
-										endT = bc.key(ld)
+				}
+			case "injectTag", "WriteFile":
+				// area offsets come from ParseFile of the same bytes and are applied in descending
+				// order (C06-ORDER), so 1 <= Start <= End <= len(contents)+1 at every application
+				var contents ssa.Value
+				if fn.Name() == "injectTag" {
+					contents = fn.Params[0]
+				}
+				for _, b := range fn.Blocks {
+					for _, i := range b.Instrs {
+						sl, ok := i.(*ssa.Slice)
+						if !ok {
+							continue
+						}
+						if fn.Name() == "WriteFile" {
+							contents = sl.X
+						}
+						if sl.X != contents {
+							continue
+						}
+						ln, lo := bc.lenTerm(contents)
+						var startT, endT string
+						for _, bb := range fn.Blocks {
+							for _, ii := range bb.Instrs {
+								if ld, ok := ii.(*ssa.UnOp); ok && ld.Op == token.MUL {
+									if fa, ok := ld.X.(*ssa.FieldAddr); ok && strings.Contains(fa.X.Type().String(), "textArea") {
+										switch fieldAddrName(fa) {
+										case "Start":
+											startT = bc.key(ld)
+										case "End":
+											endT = bc.key(ld)
+										}
 									}
 								}
 							}
 						}
-					}
-					if startT != "" && endT != "" {
-						f.le("", 0, startT, 0, -1)      // Start >= 1
-						f.le(startT, 0, endT, 0, 0)      // Start <= End
-						f.le(endT, 0, ln, lo, 1)         // End <= len+1
+						if startT != "" && endT != "" {
+							f.le("", 0, startT, 0, -1)  // Start >= 1
+							f.le(startT, 0, endT, 0, 0) // Start <= End
+							f.le(endT, 0, ln, lo, 1)    // End <= len+1
+						}
 					}
 				}
 			}
